@@ -132,7 +132,7 @@ def cases(ctx):
                         if ctx.mine(i):
                             yield "ref", mkcase(drng, lat0, lon0, par, sfc, offs=[[oy, ox], [-oy * 0.5, -ox]])
                         i += 1
-    n = ctx.share(500000 if quick else 3000000)
+    n = ctx.share(500000 if quick else 12000000)
     dl = cprgen.directed_lats(rng, n // 2 + 1)
     for k in range(n):
         lat = dl[k // 2] if k % 2 == 0 else cprgen.rand_sphere_lat(rng)
